@@ -83,6 +83,7 @@ import (
 	"github.com/btcsuite/btcd/chaincfg/v2"
 	"github.com/btcsuite/btcd/chainhash/v2"
 	"github.com/btcsuite/btcd/wire/v2"
+	"github.com/btcsuite/btclog"
 	"github.com/btcsuite/btcwallet/walletdb"
 	"github.com/lightninglabs/neutrino/pushtx"
 )
@@ -1258,6 +1259,13 @@ type vnClient struct {
 // directory) connected to the given nodes only.
 func vnStartClient(n *vnNet, dir string, nodes []*vnNode) (*vnClient, error) {
 	vnShortenTimeouts()
+	if lv := os.Getenv("VN_LOG"); lv != "" {
+		// debugging aid: the client's own log on stdout (VN_LOG=debug|info|trace)
+		lg := btclog.NewBackend(os.Stdout).Logger("NTRN")
+		l, _ := btclog.LevelFromString(lv)
+		lg.SetLevel(l)
+		UseLogger(lg)
+	}
 	if err := os.MkdirAll(dir, 0o755); err != nil {
 		return nil, err
 	}
